@@ -34,7 +34,7 @@ def BiCGSTAB_reset(Op,rhs,x0,eps=1e-6,nmax=40):
         Ap = Op.matvec(p)
         alpha = tn.dot(r.squeeze(),r0p.squeeze()) / tn.dot(Ap.squeeze(),r0p.squeeze())
         s = r - alpha * Ap
-        if tn.linalg.norm(s)<eps*norm_rhs:
+        if tn.linalg.norm(s)<=eps*norm_rhs:
             x_n = x+alpha*p
             r_nn = tn.linalg.norm(s)
             break
@@ -47,7 +47,7 @@ def BiCGSTAB_reset(Op,rhs,x0,eps=1e-6,nmax=40):
         r_nn = tn.linalg.norm(r_n)
         # print('\t\t\t',r_nn)
         # print(r_nn,eps,norm_rhs)
-        if r_nn < eps * norm_rhs:
+        if r_nn <= eps * norm_rhs:
         # if tf.linalg.norm(r_n)<eps:
             #print(r_n)
             break
